@@ -306,9 +306,10 @@ var (
 	c14CPUMenu = []int64{c14Absent, 0, 1, 999, 1000, 2500, 300000}
 	c14MemMenu = []int64{c14Absent, 0, 1, 999, 1000, 2500, 1 << 28}
 	// exact in binary and with two decimals, so that float64 division in the hook has no representation error
-	c14Ratios = [][2]int64{{0, 1}, {1, 1}, {3, 2}, {2, 1}}
-	c14Modes  = []string{"proxy", "nri", "reconciler"}
-	c14Marks  = []string{"label", "annotation", "ls", "none"}
+	c14Ratios      = [][2]int64{{0, 1}, {1, 1}, {3, 2}, {2, 1}}
+	c14ExtraRatios = [][2]int64{{1, 2}, {5, 4}, {7, 4}, {3, 1}}
+	c14Modes       = []string{"proxy", "nri", "reconciler"}
+	c14Marks       = []string{"label", "annotation", "ls", "none"}
 )
 
 func c14Name(i int) string { return fmt.Sprintf("c%d", i) }
@@ -317,9 +318,9 @@ func c14Name(i int) string { return fmt.Sprintf("c%d", i) }
 // cfs on by default / by policy x ratios
 func c14Env(c *c14Case, k int) {
 	type env struct {
-		cfs  bool
-		src  string
-		r    [2]int64
+		cfs bool
+		src string
+		r   [2]int64
 	}
 	envs := []env{
 		{true, "default", c14Ratios[0]}, {true, "policy", c14Ratios[1]}, {true, "default", c14Ratios[2]}, {true, "policy", c14Ratios[3]},
@@ -486,6 +487,10 @@ func TestVerifC14(t *testing.T) {
 		}
 		c := mk(cs...)
 		c14Env(c, rng.Intn(c14NEnvs))
+		if c.Cfs && rng.Intn(4) == 0 { // further ratios: below 1 (never scales), 1.25, 1.75, 3.0
+			x := c14ExtraRatios[rng.Intn(len(c14ExtraRatios))]
+			c.Rnum, c.Rden = x[0], x[1]
+		}
 		c.Mode = c14Modes[rng.Intn(len(c14Modes))]
 		if rng.Intn(5) == 0 {
 			c.Mark = c14Marks[1+rng.Intn(3)]
